@@ -26,3 +26,21 @@ impl CompactCursor2 {
   plain
 @*/
 /*@end*/
+
+/*@fn lang/surface/src/textual/err.rs :: fn fmt_expected
+  plain
+@*/
+/*@end*/
+
+/*@fn lang/surface/src/textual/escape.rs :: fn apply_string_escapes
+  plain
+@*/
+/*@end*/
+pub mod escape { pub use super::apply_string_escapes; }
+/*@action lang/surface/src/textual/parser.lalrpop :: rule String :: action 0
+   fn string_action
+   ret String
+   symbols "StrLit"
+   plain
+@*/
+/*@end*/
